@@ -155,9 +155,16 @@ pub fn pool() -> Vec<(String, Message)> {
     out
 }
 
+/// Deduplication key: the H3 view (buffer, has_run) plus a hash of the builder's whole in-memory
+/// representation, so that private state added by a refactoring (a cache, a dirty mark) keeps states
+/// apart.  Only ever used to decide which histories to extend, never for a verdict.
 fn state_key(b: &MessageBuilder) -> u64 {
     let (buf, has_run) = b.verif_state();
-    fnv64_add(fnv64(&buf[..]), &[has_run as u8])
+    let h = fnv64_add(fnv64(&buf[..]), &[has_run as u8]);
+    // SAFETY: reads size_of::<MessageBuilder>() bytes of a live, fully initialised value (all fields of the
+    // current layout are integers/bools/arrays; padding, if any, only makes keys more distinct)
+    let raw: &[u8] = unsafe { std::slice::from_raw_parts(b as *const MessageBuilder as *const u8, std::mem::size_of::<MessageBuilder>()) };
+    fnv64_add(h, raw)
 }
 
 type Res = Result<Vec<u8>, String>;
@@ -247,6 +254,38 @@ pub fn c12(ctx: &Ctx) -> (Report, Meta) {
         }
         frontier = next;
     }
+    // histories of the shape [A, B, A] for every pair of pool messages (hidden per-message state such as a
+    // cache of the last frame is not visible in the buffer, so state deduplication could merge them away)
+    {
+        let ok_idx: Vec<usize> = (0..n).filter(|i| matches!(fresh[*i], Ok(Ok(_)))).collect();
+        let pool_ref = &pool;
+        let fresh_ref = &fresh;
+        let ok_ref = &ok_idx;
+        let parts = par_shards(ok_idx.len(), |ai| {
+            let a = ok_ref[ai];
+            let mut rep = Report::new();
+            watch_enter(0x1201_0000 + ai as u64);
+            for bi in 0..n {
+                let mut b = MessageBuilder::new();
+                let _ = build_on(&mut b, &pool_ref[a].1);
+                let _ = build_on(&mut b, &pool_ref[bi].1);
+                let r = build_on(&mut b, &pool_ref[a].1);
+                rep.transitions += 1;
+                let same = matches!((&r, &fresh_ref[a]), (Ok(Ok(x)), Ok(Ok(y))) if x == y);
+                if !same {
+                    rep.violation("C12", format!("history-dependent-ABA:{}", pool_ref[a].0), format!("building '{}', then '{}', then '{}' again differs from a fresh builder", pool_ref[a].0, pool_ref[bi].0, pool_ref[a].0), (2000 + bi) as u64,
+                        json!({"kind":"builder_history","history":[pool_ref[a].0, pool_ref[bi].0],"target":pool_ref[a].0}));
+                }
+            }
+            watch_leave();
+            rep.traces += n as u64;
+            rep
+        });
+        for p in parts {
+            rep.merge(p);
+        }
+        rep.outcome_n("A-B-A histories", (ok_idx.len() * n) as u64);
+    }
     rep.states = states.len() as u64;
     rep.distinct_nontrivial = states.len() as u64;
     rep.extra.insert("pool_size".into(), json!(n));
@@ -259,7 +298,7 @@ pub fn c12(ctx: &Ctx) -> (Report, Meta) {
     rep.sample(json!({"history":["1004x31/ff","1300 NaN epoch (fails at the last field)"],"target":"1005:zero","oracle":"same bytes as a fresh builder"}));
     rep.sample(json!({"pool": pool.iter().map(|p| p.0.clone()).take(12).collect::<Vec<_>>()}));
     let meta = Meta {
-        rule: "pool = messages decoded from the zero / ones / testdata / counter payloads of every supported type (those the encoder refuses stay in the pool as failing operations) + maximum-length messages + messages without a wire form + messages failing at the first field, inside a list (GLONASS legacy messages failing in their k-th satellite, k = 1..12, i.e. at many bit positions), at the last field + legacy messages with 0..=12 default satellites (targets of many bit lengths). Breadth-first search from the fresh builder: state = (buffer, has_run) via hook H3, action = build(p); frontier states are re-created by replaying their shortest history. In every reachable state every pool message is built and compared with the fresh-builder result (public API only). The search runs until no new state appears (all finite histories over the pool) or a bound is hit. states = distinct builder states; transitions = builds compared".into(),
+        rule: "pool = messages decoded from the zero / ones / testdata / counter payloads of every supported type (those the encoder refuses stay in the pool as failing operations) + maximum-length messages + messages without a wire form + messages failing at the first field, inside a list (GLONASS legacy messages failing in their k-th satellite, k = 1..12, i.e. at many bit positions), at the last field + legacy messages with 0..=12 default satellites (targets of many bit lengths). Breadth-first search from the fresh builder: state = (buffer, has_run) via hook H3, action = build(p); frontier states are re-created by replaying their shortest history. In every reachable state every pool message is built and compared with the fresh-builder result (public API only). The search runs until no new state appears (all finite histories over the pool) or a bound is hit. Additionally every history of the shape [A, B, A] over the pool is run without deduplication. states = distinct builder states; transitions = builds compared".into(),
         exhaustive: closed,
         bounds: json!({"max_depth": max_depth, "state_cap": cap_states, "pool": n}),
         assumptions: vec!["state deduplication reads the private buffer through hook H3; the verdict itself never does".into()],
